@@ -20,6 +20,7 @@ _END_RE = re.compile(r"(DFS|BeFS|Parallel\w*|UDPOR) exploration ended\. (\d+) un
 _LINE_RE = re.compile(r"^\[[^\]]*\] \[(\w+)/(\w+)\] (.*)$")
 _TRACE_RE = re.compile(r"^\s*Actor (\d+) in (?:simcall |.* ==> simcall: )(.*)$")
 _STATUS_RE = re.compile(r"^\s*- pid (\d+) \(([^)]*)\) simcall (\w+)\((.*)\)\s*$")
+_NSTATUS_RE = re.compile(r"^\s*- pid (\d+) \(([^)]*)\): waiting for (.*)$")
 _CHUNK_RE = re.compile(r"\* Path chunk #(\d+) '(\d+)/(\d+)' Actor (\S+)\(pid:(\d+)\): (\w+)\((.*)\)")
 
 # observer words printed by the application (SimcallObserver::to_string) for the transition types of the reference
@@ -252,9 +253,14 @@ def run_native(vm, spec_path, factory=None, nthreads=None, jitter=None, order=No
         if "Oops! Deadlock detected" in raw:
             res["oops"] += 1
         m = _LINE_RE.match(raw)
-        sm = _STATUS_RE.match(m.group(3) if m else raw)
+        msg = m.group(3) if m else raw
+        sm = _STATUS_RE.match(msg)
         if sm:
             res["blocked"][int(sm.group(1))] = (sm.group(3), sm.group(4), sm.group(2))
+            continue
+        sm = _NSTATUS_RE.match(msg)
+        if sm:      # "- pid 4 (a2@h2): waiting for a barrier acquisition activity 0xdeadbeef () in state WAITING"
+            res["blocked"][int(sm.group(1))] = (sm.group(3).split(" activity")[0], "", sm.group(2))
     return res
 
 
